@@ -307,7 +307,10 @@ def strat_schedule():
     from hypothesis import strategies as st
     return st.fixed_dictionaries(dict(n_pages=st.integers(3, 5), seeds=st.lists(st.integers(1, 10 ** 6), min_size=5, max_size=5),
                                       lines=st.lists(st.integers(1, 3), min_size=5, max_size=5), procs=st.sampled_from([2, 3]),
-                                      first_part=st.lists(st.booleans(), min_size=5, max_size=5)))
+                                      first_part=st.lists(st.booleans(), min_size=5, max_size=5),
+                                      # which outputs of a page the interrupted earlier run left behind (7 = all three);
+                                      # xml+render without the crops (3) is the recorded C17 finding and is not generated
+                                      present=st.lists(st.sampled_from([7, 7, 0, 1, 2, 4, 5, 6]), min_size=5, max_size=5)))
 
 
 def run_script(argv):
@@ -342,28 +345,87 @@ def body_schedule(ctx, case):
         ctx.check(not diff, "parallel_run_differs_from_sequential", lambda: "%r; " % (diff,) + desc())
         # resumed run: the first part of the pages is already there (copied from a run over those pages only)
         res = F.out_dirs(d, "res", kinds)
-        first = [i for i, b in zip(ids, case["first_part"]) if b]
+        touched = [(i, p) for i, b, p in zip(ids, case["first_part"], case.get("present", [7] * 5)) if b]
+        first = [i for i, p in touched if p == 7]
         for k in ("xml", "render"):
             os.makedirs(res[k], exist_ok=True)
         os.makedirs(res["lines"], exist_ok=True)
-        for i in first:
-            shutil.copy(os.path.join(seq["xml"], i + ".xml"), res["xml"])
-            shutil.copy(os.path.join(seq["render"], i + ".jpg"), res["render"])
-            for fn in os.listdir(seq["lines"]):
-                if fn.startswith(i + "-"):
-                    shutil.copy(os.path.join(seq["lines"], fn), res["lines"])
+        for i, p in touched:
+            if p & 1:
+                shutil.copy(os.path.join(seq["xml"], i + ".xml"), res["xml"])
+            if p & 2:
+                shutil.copy(os.path.join(seq["render"], i + ".jpg"), res["render"])
+            if p & 4:
+                for fn in os.listdir(seq["lines"]):
+                    if fn.startswith(i + "-"):
+                        shutil.copy(os.path.join(seq["lines"], fn), res["lines"])
+        if any(p != 7 for _, p in touched):
+            ctx.event("resumed_over_partial_outputs")
         rc, out = run_script(F.argv_for(job, res, skip=True, process_count=case["procs"] if len(first) % 2 else 1))
         ctx.check(rc == 0 and "ERROR" not in out, "resumed_run_fails", lambda: "rc=%r %s; " % (rc, out[-500:]) + desc())
         for i in first:
             ctx.check("Processing %s\n" % i not in out, "complete_page_processed_again", lambda: "page %s; " % i + desc())
         diff = F.diff_snapshots(ref, F.snapshot(res))
         ctx.check(not diff, "resumed_run_differs_from_sequential", lambda: "%r; " % (diff,) + desc())
-        if 0 < len(first) < n:
+        if 0 < len(touched) < n or any(p != 7 for _, p in touched):
             ctx.nontrivial(repr(case))
+
+
+# ---------------------------------------------------------------- resumed runs over every partial state of a small batch
+_RS = {}
+
+
+def resume_state_cases(tier):
+    import itertools
+    # per page: which of (xml, render) an earlier interrupted run left behind
+    return [tuple(st) for st in itertools.product((0, 1, 2, 3), repeat=3)]
+
+
+def body_resume_state(ctx, case):
+    import shutil
+    import tempfile
+    import atexit
+    from vlib import folder as F
+    kinds = ("xml", "render")
+    ids = ["pa", "pb", "pc"]
+    if "job" not in _RS:
+        root = tempfile.mkdtemp(prefix="verif-c08-")
+        atexit.register(shutil.rmtree, root, True)
+        job = F.make_job(root, ids, [2, 1, 2], [5, 6, 7])
+        with open(job["config"], "w") as f:
+            f.write("[PAGE_PARSER]\nRUN_LAYOUT_PARSER = no\nRUN_LINE_CROPPER = yes\nRUN_OCR = no\nRUN_DECODER = no\n\n"
+                    "[LINE_CROPPER]\nINTERP = 2\nLINE_SCALE = 1\nLINE_HEIGHT = 16\n")
+        ref = F.out_dirs(root, "ref", kinds)
+        status, inj = F.run_main(F.argv_for(job, ref))
+        ctx.check(status == "ok", "reference_run_fails", lambda: status)
+        _RS.update(job=job, ref=ref, snap=F.snapshot(ref), n=0)
+    job, ref = _RS["job"], _RS["ref"]
+    _RS["n"] += 1
+    outs = F.out_dirs(job["root"], "st%d" % _RS["n"], kinds)
+    try:
+        for k in kinds:
+            os.makedirs(outs[k])
+        for pid, stt in zip(ids, case):
+            if stt & 1:
+                shutil.copy(os.path.join(ref["xml"], pid + ".xml"), outs["xml"])
+            if stt & 2:
+                shutil.copy(os.path.join(ref["render"], pid + ".jpg"), outs["render"])
+        status, inj = F.run_main(F.argv_for(job, outs, skip=True))
+        desc = lambda: "per-page state (1 = xml present, 2 = render present) %r for pages %r" % (case, ids)
+        ctx.check(status == "ok", "resumed_run_fails", lambda: "%s; " % status + desc())
+        again = [p for p, stt in zip(ids, case) if stt == 3 and p in inj.processed]
+        ctx.check(not again, "complete_page_processed_again", lambda: "%r; " % (again,) + desc())
+        diff = F.diff_snapshots(_RS["snap"], F.snapshot(outs))
+        ctx.check(not diff, "resumed_run_differs_from_uninterrupted_run", lambda: "%r; " % (diff,) + desc())
+        if any(stt in (1, 2) for stt in case):
+            ctx.nontrivial(("resume_state", case))
+    finally:
+        shutil.rmtree(os.path.dirname(outs["xml"]), ignore_errors=True)
 
 
 UNITS = [
     Unit("page_decoder", "machine", machine=make_decoder_machine, quick=320, thorough=4000, steps=10, shards_quick=8, shrink_quick=False),
     Unit("page_parser", "machine", machine=make_parser_machine, quick=64, thorough=800, steps=7, shards_quick=8, shrink_quick=False),
+    Unit("resume_states", "enum", body=body_resume_state, cases=resume_state_cases, exhaustive=True, shards_quick=4, shards_thorough=4),
     Unit("schedule", "given", body=body_schedule, strategy=strat_schedule, quick=8, thorough=64, shards_quick=4, shards_thorough=16, shrink_quick=False),
 ]
